@@ -21,8 +21,15 @@ pub struct FileSpec {
     pub content: Vec<u8>,
     /// recorded algorithms, in order (no algorithm twice)
     pub algs: Vec<usize>,
-    /// record a Size line (distfiles only)
+    /// record a Size line (patch files only when the record is rendered by the harness)
     pub size: bool,
+    /// harness-rendered record: the Size line comes before the checksum lines
+    #[serde(default)]
+    pub size_first: bool,
+    /// API-built record: a decoy entry for the same name (all six algorithms,
+    /// wrong hashes, wrong size) is inserted first; the real insert must replace it
+    #[serde(default)]
+    pub decoy_first: bool,
 }
 
 #[derive(Clone, Debug, Serialize, Deserialize)]
@@ -166,15 +173,23 @@ fn render_distinfo(files: &[FileSpec], recs: &[Record]) -> Vec<u8> {
             if model_is_patch(&f.name) != (pass == 1) {
                 continue;
             }
+            let size_line = |s: &mut Vec<u8>| {
+                if let Some(n) = r.size {
+                    s.extend_from_slice(b"Size (");
+                    s.extend_from_slice(&raw(&f.name));
+                    s.extend_from_slice(format!(") = {} bytes\n", n).as_bytes());
+                }
+            };
+            if f.size_first {
+                size_line(&mut s);
+            }
             for (a, h) in &r.checksums {
                 s.extend_from_slice(format!("{} (", ALG_NAMES[*a]).as_bytes());
                 s.extend_from_slice(&raw(&f.name));
                 s.extend_from_slice(format!(") = {}\n", h).as_bytes());
             }
-            if let Some(n) = r.size {
-                s.extend_from_slice(b"Size (");
-                s.extend_from_slice(&raw(&f.name));
-                s.extend_from_slice(format!(") = {} bytes\n", n).as_bytes());
+            if !f.size_first {
+                size_line(&mut s);
             }
         }
     }
@@ -660,7 +675,9 @@ impl Property for C12 {
                 FileSpec {
                     content: gen_content(rng, patch, tier),
                     algs,
-                    size: !patch && rng.chance(4, 5),
+                    size: rng.chance(4, 5),
+                    size_first: rng.chance(1, 3),
+                    decoy_first: rng.chance(1, 3),
                     name,
                 }
             })
@@ -684,6 +701,15 @@ impl Property for C12 {
             lookups.push(format!("{}{}", prefix, base));
         }
         let via_api = rng.chance(1, 2);
+        let mut files = files;
+        if via_api {
+            // Distinfo::as_bytes() does not write sizes of patch files
+            for f in files.iter_mut() {
+                if model_is_patch(&f.name) {
+                    f.size = false;
+                }
+            }
+        }
         // as_bytes() writes names through a lossy conversion (that is C10's
         // subject, not C12's): records with names that are not UTF-8 are
         // verified on the inserted Distinfo itself
@@ -802,6 +828,16 @@ impl Property for C12 {
                 } else {
                     None
                 };
+                if f.decoy_first {
+                    ctx.probe("entry-re-inserted-over-a-decoy");
+                    let decoy = Entry::new(
+                        os(&f.name),
+                        &p,
+                        (0..6).map(|a| Checksum::new(ALGS[a], "0".repeat(HEX_LEN[a]))).collect(),
+                        Some(f.content.len() as u64 + 9),
+                    );
+                    di.insert(decoy);
+                }
                 let e = Entry::new(os(&f.name), &p, cks, size);
                 ensure!(
                     (e.filetype == EntryType::Patchfile) == model_is_patch(&f.name),
@@ -1371,6 +1407,7 @@ impl Property for C12 {
             "verified-with-the-inserted-distinfo-itself",
             "entry-verify-under-alias-name",
             "name-not-utf8",
+            "entry-re-inserted-over-a-decoy",
         ]
     }
 }
